@@ -44,6 +44,10 @@ type Collector struct {
 var (
 	regMu sync.Mutex
 	reg   []*Collector
+
+	curPath = os.Getenv("VX_CUR")
+	curMu   sync.Mutex
+	curFile *os.File
 )
 
 // New registers a collector for one test function.
@@ -78,10 +82,19 @@ func canon(v interface{}) json.RawMessage {
 // persisted first so that a crash of the process can be attributed to it.
 func (c *Collector) Begin(v interface{}) *Case {
 	enc := canon(v)
-	if p := os.Getenv("VX_CUR"); p != "" {
+	if curPath != "" {
 		obj := map[string]interface{}{"property": c.Property, "part": c.Part, "case": enc}
 		b, _ := json.Marshal(obj)
-		_ = ioutil.WriteFile(p, b, 0o644)
+		curMu.Lock()
+		if curFile == nil {
+			curFile, _ = os.OpenFile(curPath, os.O_CREATE|os.O_RDWR|os.O_TRUNC, 0o644)
+		}
+		if curFile != nil {
+			// one pwrite + ftruncate per case; trailing spaces keep the file valid JSON when it shrinks
+			_, _ = curFile.WriteAt(b, 0)
+			_ = curFile.Truncate(int64(len(b)))
+		}
+		curMu.Unlock()
 	}
 	c.mu.Lock()
 	c.Evaluations++
